@@ -475,7 +475,7 @@ func (g *G) classes() []genClass {
 	case "C20":
 		return []genClass{{8, func(g *G, id string) *History { return g.genSWR(id) }}, {2, grid}, {1, swrInval}}
 	case "C09":
-		return []genClass{{4, urls}, {3, vary}, {3, backends}, {2, chain}, {1, func(g *G, id string) *History { return g.genRootless(id) }}, {1, func(g *G, id string) *History { return g.genHostOverride(id) }},
+		return []genClass{{4, urls}, {3, vary}, {3, backends}, {2, chain}, {2, grid}, {1, func(g *G, id string) *History { return g.genRootless(id) }}, {1, func(g *G, id string) *History { return g.genHostOverride(id) }},
 			{1, func(g *G, id string) *History { return g.genZoneDates(id) }}, {1, func(g *G, id string) *History { return g.genOldLastModified(id) }},
 			{1, func(g *G, id string) *History { return g.genSelEquiv(id) }}}
 	}
